@@ -159,6 +159,20 @@ func raceBuild(custom bool, yield bool) (*fiber.App, *raceSink) {
 		pause()
 		return err
 	})
+	// the response body IS a value of the request, handed over without building a new string
+	app.Get("/echo/:id", func(c fiber.Ctx) error {
+		c.Set("X-Answer", c.Get("X-Rid"))
+		switch c.Query("via") {
+		case "path":
+			return c.SendString(c.Path())
+		case "query":
+			return c.SendString(c.Query("q"))
+		case "header":
+			_, err := c.WriteString(c.Get("X-Val"))
+			return err
+		}
+		return c.SendString(c.Params("id"))
+	})
 	app.Get("/fail/:id", func(c fiber.Ctx) error {
 		c.Set("X-Answer", c.Get("X-Rid"))
 		return fiber.NewError(418, "answer "+c.Params("id"))
@@ -177,6 +191,7 @@ func (*nullViews) Render(w io.Writer, _ string, _ any, _ ...string) error {
 type raceReq struct {
 	id   string
 	raw  []byte
+	body string // expected body, "" = not judged
 	want int    // expected status, 0 = not judged
 	kind string // for the signature
 }
@@ -203,8 +218,21 @@ func genRaceConn(r *gen.Rand, conn int, n int) []raceReq {
 		if r.Chance(1, 6) {
 			qs += "&redir=1"
 		}
-		want, kind := 0, ""
-		switch r.PickW(6, 3, 1, 3) {
+		want, kind, wantBody := 0, "", ""
+		switch r.PickW(6, 3, 1, 3, 4) {
+		case 4:
+			via := gen.Pick(r, []string{"params", "params", "path", "query", "header"})
+			q.Target, want, kind = "/echo/"+id+"?via="+via+"&q=q-"+id, 200, "echo-"+via
+			switch via {
+			case "params":
+				wantBody = id
+			case "path":
+				wantBody = "/echo/" + id
+			case "query":
+				wantBody = "q-" + id
+			case "header":
+				wantBody = q.Hdr[1][1]
+			}
 		case 3:
 			if r.Bool() {
 				q.Target, want, kind = "/sf/"+id+"?f="+gen.Pick(r, []string{"a", "b", "c"}), 200, "sendfile-existing"
@@ -225,7 +253,7 @@ func genRaceConn(r *gen.Rand, conn int, n int) []raceReq {
 		case 2:
 			q.Target = "/fail/" + id
 		}
-		out = append(out, raceReq{id: id, raw: q.raw(), want: want, kind: kind})
+		out = append(out, raceReq{id: id, raw: q.raw(), want: want, kind: kind, body: wantBody})
 	}
 	return out
 }
@@ -323,6 +351,10 @@ func runRace(e *ev.Env) {
 				if ws := conns[k][i].want; ws != 0 && rsp.Status != ws {
 					e.Violation(c, "foreign-status|"+conns[k][i].kind, "the status of a response was decided by another request",
 						map[string]any{"connection": k, "index": i, "want": ws, "got": rsp.Status, "request": string(conns[k][i].raw), "custom_ctx": custom})
+				}
+				if wb := conns[k][i].body; wb != "" && string(rsp.Body) != wb {
+					e.Violation(c, "foreign-body|"+conns[k][i].kind, "a response body that echoes a value of its request carries something else",
+						map[string]any{"connection": k, "index": i, "want": wb, "got": string(rsp.Body), "custom_ctx": custom})
 				}
 				want := conns[k][i].id
 				toks := map[string]struct{}{}
